@@ -45,8 +45,10 @@ CLAIMED.update({
     'C11': dict(cat='proof', design='DESIGN.md §7 C11',
         text='Theorems on the matcher model: in HTML tag and attribute names match up to ASCII case (for every name), in XML exactly; '
              'HTML-only lists never match when the document is XML and not XHTML; document-type detection; the regenerated re.I closure '
-             'table makes every ASCII letter match both cases. Value rules live in the compiled regexes: validated AST-for-AST against '
-             'AttrPat.v. Same logical tree as HTML x3 parsers / XHTML / XML, implementation vs model vs reference semantics.',
+             'table makes every ASCII letter match both cases. Value rules: for EVERY selector value and EVERY attribute value, with or without '
+             'the i flag, each of the six operator patterns accepts exactly the values CSS designates, character by character up to the '
+             'pattern character relation - identity without the flag, the case closure regenerated from re with it (AttrFactsIC); '
+             'AttrPat.attr_template is validated AST-for-AST against the live parser. Same logical tree as HTML x3 parsers / XHTML / XML, implementation vs model vs reference semantics.',
         note='Non-ASCII case folding is observed, not judged.',
         technique='Coq proofs on matcher model + translation validation of attribute templates + differential'),
     'C12': dict(cat='proof', design='DESIGN.md §7 C12',
